@@ -481,6 +481,9 @@ func c8templates() [][2]string {
 	add("", "\tfmt.Println(strings.Repeat(\"a\", 2))\n\tif x > 0 {\n\t\tstrings := 5\n\t\tfmt.Println(strings + 1)\n\t}\n\tfmt.Println(strings.Repeat(\"b\", 3))\n", "aa\n6\nbbb\n-- 1000 2000\n")
 	add("", "\tfor i := 0; i < 2; i++ {\n\t\tstrings := i\n\t\tfmt.Println(strings)\n\t}\n\tfmt.Println(strings.Contains(\"xyz\", \"y\"))\n", "0\n1\ntrue\n-- 1000 2000\n")
 	add("func f(strings int) int {\n\treturn strings * 2\n}\n\n", "\tfmt.Println(f(4), strings.Repeat(\"c\", 1))\n", "8 c\n-- 1000 2000\n")
+	add("func sum(p []int) int {\n\tt := 0\n\tfor _, p := range p {\n\t\tt += p\n\t}\n\treturn t + len(p)\n}\n\n", "\txs := []int{3, 4}\n\tfor _, xs := range xs {\n\t\tfmt.Println(xs + 1)\n\t}\n\tfmt.Println(len(xs), sum(xs))\n\ti := 1\n\trows := [][]int{{9}, {7, 8}}\n\tfor i := range rows[i] {\n\t\tfmt.Println(i)\n\t}\n\tfmt.Println(i)\n\tm := map[string]int{\"k\": 1}\n\tfor m, v := range m {\n\t\tfmt.Println(m, v)\n\t}\n\tfmt.Println(len(m))\n",
+		"4\n5\n2 9\n0\n1\n1\nk 1\n1\n-- 1000 2000\n")
+	add("", "\tswitch x {\ncase 1000:\n\t\tx = 5\n\tdefault:\n\t\tx := 7\n\t\ty = x\n\t}\n\tfmt.Println(x, y)\n\tswitch y {\n\tdefault:\n\t\ty := 1\n\t\tx += y\n\tcase 2000:\n\t\ty += 3\n\t}\n\tfmt.Println(x, y)\n", "5 2000\n5 2003\n-- 5 2003\n")
 	add("type T struct {\n\tx int\n}\n\nfunc (t *T) Get(y int) int {\n\tx := t.x + y\n\treturn x\n}\n\n", "\tt := &T{x: 5}\n\tfmt.Println(t.Get(1), x, y)\n", "6 1000 2000\n-- 1000 2000\n")
 	return out
 }
